@@ -1469,7 +1469,12 @@ public:
          assert(lp_scaler);
 
          for(int i = 0; i < lower().dim(); i++)
-            LPColSetBase<R>::lower_w(i) = lp_scaler->scaleLower(*this, i, newLower[i]);
+         {
+            if(newLower[i] > R(-infinity))
+               LPColSetBase<R>::lower_w(i) = lp_scaler->scaleLower(*this, i, newLower[i]);
+            else
+               LPColSetBase<R>::lower_w(i) = newLower[i];
+         }
       }
       else
          LPColSetBase<R>::lower_w() = newLower;
@@ -1517,7 +1522,12 @@ public:
          assert(lp_scaler);
 
          for(int i = 0; i < upper().dim(); i++)
-            LPColSetBase<R>::upper_w(i) = lp_scaler->scaleUpper(*this, i, newUpper[i]);
+         {
+            if(newUpper[i] < R(infinity))
+               LPColSetBase<R>::upper_w(i) = lp_scaler->scaleUpper(*this, i, newUpper[i]);
+            else
+               LPColSetBase<R>::upper_w(i) = newUpper[i];
+         }
       }
       else
          LPColSetBase<R>::upper_w() = newUpper;
@@ -1597,7 +1607,12 @@ public:
          assert(lp_scaler);
 
          for(int i = 0; i < lhs().dim(); i++)
-            LPRowSetBase<R>::lhs_w(i) = lp_scaler->scaleLhs(*this, i, newLhs[i]);
+         {
+            if(newLhs[i] > R(-infinity))
+               LPRowSetBase<R>::lhs_w(i) = lp_scaler->scaleLhs(*this, i, newLhs[i]);
+            else
+               LPRowSetBase<R>::lhs_w(i) = newLhs[i];
+         }
       }
       else
          LPRowSetBase<R>::lhs_w() = newLhs;
@@ -1645,7 +1660,12 @@ public:
          assert(lp_scaler);
 
          for(int i = 0; i < rhs().dim(); i++)
-            LPRowSetBase<R>::rhs_w(i) = lp_scaler->scaleRhs(*this, i, newRhs[i]);
+         {
+            if(newRhs[i] < R(infinity))
+               LPRowSetBase<R>::rhs_w(i) = lp_scaler->scaleRhs(*this, i, newRhs[i]);
+            else
+               LPRowSetBase<R>::rhs_w(i) = newRhs[i];
+         }
       }
       else
          LPRowSetBase<R>::rhs_w() = newRhs;
